@@ -195,12 +195,16 @@ class _FoldLen(ast.NodeTransformer):
     `len('>=')` -> 2; `operator.gt(a, b)` -> `a > b`; `operator.not_(a)` -> `not a`; a comparison of two literals
     (`'>=' is None`) -> its truth; `T[k]` / `T.get(k)` on a constant dict with a literal key -> the entry."""
 
-    def __init__(self, module: T.Optional[ast.Module] = None, local: T.Optional[T.Set[str]] = None):
-        self.module, self.local = module, local or set()
+    def __init__(self, module: T.Optional[ast.Module] = None, local: T.Optional[T.Set[str]] = None,
+                 local_table: T.Optional[T.Callable[[str], T.Optional[ast.AST]]] = None):
+        self.module, self.local, self.local_table = module, local or set(), local_table
 
     def table(self, e: ast.AST) -> T.Optional[ast.Dict]:
         if isinstance(e, ast.Dict):
             return e
+        if isinstance(e, ast.Name) and e.id in self.local and self.local_table is not None:
+            v = self.local_table(e.id)          # a local bound once to a display and only ever read
+            return v if isinstance(v, ast.Dict) else None
         if isinstance(e, ast.Name) and self.module is not None and e.id not in self.local:
             from .c19_fold import is_constant_name
             v = is_constant_name(self.module, e.id)
@@ -444,7 +448,7 @@ class Normaliser:
         out = _Sub(st, shadow).visit(copy.deepcopy(e))
         if self.module is not None:
             out = _FoldConst(self.module, self.locals | shadow | set(st.stale)).visit(out)
-        return _FoldLen(self.module, self.locals | shadow).visit(out)
+        return _FoldLen(self.module, self.locals | shadow, self.local_table).visit(out)
 
     def substitutable(self, v: ast.AST) -> bool:
         for n in ast.walk(v):
